@@ -220,6 +220,19 @@ inline Geom geom_of(const cell& c) { Geom g; size_t n = 0; long double mx = 0, m
         long double a = 0.5L * sqrtl(nx * nx + ny * ny + nz * nz); g.area += a; sx += a * (ax + bx + qx) / 3; sy += a * (ay + by + qy) / 3; sz += a * (az + bz + qz) / 3; }
     g.cx = mx + sx / g.area; g.cy = my + sy / g.area; g.cz = mz + sz / g.area; return g; }
 
+// independent closest-point distance (long double, Ericson's regions re-derived with explicit clamping of barycentric coordinates)
+inline long double dist2_point_triangle(const vec3& P, const vec3& A, const vec3& B, const vec3& C) {
+    typedef long double L; L p[3] = {P.dx(), P.dy(), P.dz()}, a[3] = {A.dx(), A.dy(), A.dz()}, b[3] = {B.dx(), B.dy(), B.dz()}, c[3] = {C.dx(), C.dy(), C.dz()};
+    auto seg = [&](const L* u, const L* v) { L uv[3], up[3]; L t = 0, l = 0; for (int k = 0; k < 3; k++) { uv[k] = v[k] - u[k]; up[k] = p[k] - u[k]; t += uv[k] * up[k]; l += uv[k] * uv[k]; } t = l > 0 ? std::max((L)0, std::min((L)1, t / l)) : 0; L d = 0; for (int k = 0; k < 3; k++) { L q = u[k] + t * uv[k] - p[k]; d += q * q; } return d; };
+    L best = std::min(seg(a, b), std::min(seg(b, c), seg(c, a)));
+    L ab[3], ac[3], ap[3], n[3]; for (int k = 0; k < 3; k++) { ab[k] = b[k] - a[k]; ac[k] = c[k] - a[k]; ap[k] = p[k] - a[k]; }
+    n[0] = ab[1] * ac[2] - ab[2] * ac[1]; n[1] = ab[2] * ac[0] - ab[0] * ac[2]; n[2] = ab[0] * ac[1] - ab[1] * ac[0]; L nn = n[0] * n[0] + n[1] * n[1] + n[2] * n[2];
+    if (nn > 0) { L d00 = 0, d01 = 0, d11 = 0, d20 = 0, d21 = 0; for (int k = 0; k < 3; k++) { d00 += ab[k] * ab[k]; d01 += ab[k] * ac[k]; d11 += ac[k] * ac[k]; d20 += ap[k] * ab[k]; d21 += ap[k] * ac[k]; } L den = d00 * d11 - d01 * d01; L v = (d11 * d20 - d01 * d21) / den, w = (d00 * d21 - d01 * d20) / den;
+        if (v >= 0 && w >= 0 && v + w <= 1) { L h = ap[0] * n[0] + ap[1] * n[1] + ap[2] * n[2]; best = std::min(best, h * h / nn); } }
+    return best;
+}
+
+
 inline std::string mesh_to_text(const Mesh& m) { std::ostringstream o; o << m.nv() << " " << m.nf(); for (double d : m.pos) o << " " << vf::dhex(d); for (unsigned t : m.tri) o << " " << t; return o.str(); }
 inline Mesh mesh_from_text(const std::string& s) { std::istringstream i(s); size_t nv, nf; i >> nv >> nf; Mesh m; m.pos.resize(3 * nv); m.tri.resize(3 * nf); for (auto& d : m.pos) { std::string t; i >> t; d = strtod(t.c_str(), nullptr); } for (auto& t : m.tri) i >> t; m.name = "replayed"; return m; }
 
